@@ -56,9 +56,10 @@ type operand struct {
 }
 
 type cinstr struct {
-	instr ssa.Instruction
-	dst   int32
-	ops   []operand
+	instr  ssa.Instruction
+	dst    int32
+	ops    []operand
+	reload []int32 // Return: per result, the slot of the local variable to reload (-1: none)
 }
 
 type cblock struct {
@@ -176,6 +177,19 @@ func compile(fn *ssa.Function) *fnInfo {
 			ci.ops = make([]operand, len(rands))
 			for k, r := range rands {
 				ci.ops[k] = mkop(r)
+			}
+			if ret, ok := in.(*ssa.Return); ok && len(ret.Results) > 1 {
+				for k := range ret.Results {
+					if ld := reloadAtReturn(ret, k); ld != nil {
+						if ci.reload == nil {
+							ci.reload = make([]int32, len(ret.Results))
+							for j := range ci.reload {
+								ci.reload[j] = -1
+							}
+						}
+						ci.reload[k] = idx[ld.X]
+					}
+				}
 			}
 			if _, ok := in.(*ssa.Phi); ok {
 				cb.phis = append(cb.phis, ci)
@@ -452,6 +466,37 @@ func (fr *frame) prepareCall(ci *cinstr, call *ssa.CallCommon) (fn value, args [
 		args = append(args, fr.arg(&ci.ops[1+k]))
 	}
 	return
+}
+
+// reloadAtReturn: result k of ret is a load of a local variable (Alloc) made
+// earlier in the same block with a call in between, and used only by ret.
+func reloadAtReturn(ret *ssa.Return, k int) *ssa.UnOp {
+	ld, ok := ret.Results[k].(*ssa.UnOp)
+	if !ok || ld.Op != token.MUL || ld.Block() != ret.Block() {
+		return nil
+	}
+	if _, isAlloc := ld.X.(*ssa.Alloc); !isAlloc {
+		return nil
+	}
+	if refs := ld.Referrers(); refs == nil || len(*refs) != 1 {
+		return nil
+	}
+	seenLoad, callBetween := false, false
+	for _, in := range ret.Block().Instrs {
+		if in == ssa.Instruction(ld) {
+			seenLoad = true
+			continue
+		}
+		if seenLoad {
+			if _, isCall := in.(*ssa.Call); isCall {
+				callBetween = true
+			}
+		}
+	}
+	if !callBetween {
+		return nil
+	}
+	return ld
 }
 
 type rtypeMethod struct{ name string }
@@ -762,6 +807,16 @@ func (fr *frame) visit(ci *cinstr) continuation {
 			res := make(tuple, len(instr.Results))
 			for k := range instr.Results {
 				res[k] = fr.arg(&ci.ops[k])
+				// `return x, f(&x)`: the Go specification leaves the order of
+				// reading x and calling f open; go/ssa reads x first, the gc
+				// compiler — the build users run — calls f first. Follow gc:
+				// reload a local variable that was read before a later call in
+				// the same block (legacy.ReadTranslations depends on it)
+				if ci.reload != nil && ci.reload[k] >= 0 {
+					if addr, ok := fr.env[ci.reload[k]].(*value); ok && addr != nil {
+						res[k] = copyVal(*addr)
+					}
+				}
 			}
 			fr.result = res
 		}
